@@ -809,6 +809,8 @@ func runPlan(p *Plan, trace bool, collectCover bool) *runResult {
 		switch sim.AbortWhy {
 		case "deadlock":
 			res.Viol = append(res.Viol, Violation{Prop: "C14", Class: "deadlock", Task: -1, Op: -1, Detail: "all caller tasks are blocked inside library calls: a call that returns alone does not return beside others", NeedsRun: -1})
+		case "goroutine-panic":
+			res.Viol = append(res.Viol, Violation{Prop: "C14", Class: "goroutine-panic", Task: -1, Op: -1, Detail: "a goroutine started by the library panicked (a real process would crash): " + sim.GoPanic, NeedsRun: -1})
 		case "no-progress":
 			res.Viol = append(res.Viol, Violation{Prop: "C14", Class: "no-progress", Task: -1, Op: -1, Detail: "point budget exhausted: a library call does not finish under this schedule", NeedsRun: -1})
 		}
